@@ -3,7 +3,7 @@
 import json, os, subprocess
 V = os.path.dirname(os.path.dirname(os.path.abspath(__file__)))
 
-CORE_NOTE = "Trusted: TLC/SANY/Json; the renderer and AST encoder (self-checked on every case by re-encoding the real parser's tree); the host probe functions. Bounds: nesting depth 2 exhaustive (3 sampled / exhaustive in thorough), small value pools, fuel 40; seeded random programs to depth 4-5. Points the statement leaves open are marked open by the specification and not compared."
+CORE_NOTE = "Trusted: TLC/SANY/Json; the renderer and AST encoder (self-checked on every case by re-encoding the real parser's tree); the host probe functions. Bounds: nesting depth 2 exhaustive (3 sampled / exhaustive in thorough), small value pools, fuel 400; seeded random programs to depth 4-5. Points the statement leaves open are marked open by the specification and not compared."
 
 CHECKS = {
  "C12": dict(level="model_checking", design="5 (C12), 3.6",
@@ -39,9 +39,13 @@ CHECKS = {
    technique="solo outcome from TLC/AnkoSem; one parsed tree run sequentially and concurrently on fresh environments with a structural tree digest before/after, run k = run 1 = solo, package-table digest, race detector",
    text="Non-interference is checked on every program of the language-core corpora and a raw-source corpus: the tree digest (including the run-time slots inside call and literal nodes) never changes, every repeated/concurrent run equals the first and the specification's solo outcome, import copies leave the process-wide tables unchanged, and the race detector stays silent.",
    note=CORE_NOTE + " The race detector observes only the interleavings that occur."),
+ "C05": dict(level="model_checking", design="5 (C05), 3.1, 3.2",
+   technique="TLC: Int64.tla (byte-limb two's-complement arithmetic) model-checked at reduced width against native integers; AnkoArith.tla computes every operator x operand-pair result (exact int64, or the float64 primitive term) over the edge pools; replay on the real VM through four operand provenances; TLC trace validation of random int64 tuples",
+   text="The integer tower is interpreted inside TLA+ (wrap-around, unsigned shift counts, truncated remainder, signed order, decimal formatting), itself model-checked exhaustively at width 8 bits and on an edge pool at 16 bits; the dispatch (which kind wins, which operand is converted, which primitive applies, error or not) is enumerated exhaustively over operator x pool x pool and compared, value and dynamic type, with the real interpreter. Float leaves are Go's own arithmetic by the statement's definition.",
+   note="Trusted: IEEE-754 float64, fmt.Sprint formatting and float64(int64) rounding as implemented by Go (primitive terms); TLC. Bounds: 24 (quick) / 55 (thorough) int64 edge values, 13/27 floats, 4 strings, all ordered pairs x 15 binary + 2 unary operators, depth-2 integer trees over 6/9 values; random tuples 1.5k/20k."),
+# <<ADD>>
 }
 
-CORE_NOTE = "Trusted: TLC/SANY/Json; the renderer and AST encoder (self-checked on every case by re-encoding the real parser's tree); the host probe functions. Bounds: nesting depth 2 exhaustive (3 sampled / exhaustive in thorough), small value pools, fuel 40; seeded random programs to depth 4-5. Points the statement leaves open are marked open by the specification and not compared."
 NOT_YET0 = "check not built yet in this round (planned in DESIGN.md section 5); not claimed until its machinery is sound"
 
 def main():
